@@ -498,6 +498,57 @@ static void run_tier(const bool T, const std::string sfx) {
                                w.size(), T ? 4 : 3, T ? 2 : 1, T ? 5 : 4));
     }
 
+    // ------------------------------------------------------------ substring search: haystacks longer than the needle
+    // (needles with a self-overlapping prefix that occur only inside an earlier partial match need length(haystack) >
+    // length(needle) + 1, which the all-pairs section above does not reach)
+    {
+        std::vector<std::string> hw, nw;
+        words("aAb", T ? 6 : 5, hw); words("aAb", T ? 4 : 3, nw);
+        std::vector<const char*> ne(1, (const char*)0), ha(1, (const char*)0);
+        for (auto& x : nw) ne.push_back(heap_str(x));
+        for (auto& x : hw) ha.push_back(heap_str(x));
+        Sec s(("contains" + sfx).c_str());
+        typedef const char* S;
+        add2<S, S>(s, "STRCMP_CONTAINS", ne, ha, F2(S, S, STRCMP_CONTAINS(e, a)), str_contains);
+        add2<S, S>(s, "STRCMP_CONTAINS_TEXT", ne, ha, F2(S, S, STRCMP_CONTAINS_TEXT(e, a, TXT)), str_contains);
+        add2<S, S>(s, "STRCMP_NOCASE_CONTAINS", ne, ha, F2(S, S, STRCMP_NOCASE_CONTAINS(e, a)), str_nocase_contains);
+        add2<S, S>(s, "STRCMP_NOCASE_CONTAINS_TEXT", ne, ha, F2(S, S, STRCMP_NOCASE_CONTAINS_TEXT(e, a, TXT)), str_nocase_contains);
+        run_section(s, vf::fmt("expected (needle) over NULL and every string over {a,A,b} of length <= %d (%zu) x actual (haystack) over NULL and every string over {a,A,b} of length <= %d (%zu); exact-size heap buffers; oracle libc strstr on the (folded) operands",
+                               T ? 4 : 3, nw.size(), T ? 6 : 5, hw.size()));
+    }
+
+    // ------------------------------------------------------------ long strings and blocks: single differences at every position
+    {
+        std::vector<int> ns = {7, 8, 9, 16, 17};
+        if (T) { int more[] = {4, 5, 15, 31, 32, 33, 63, 64, 65}; ns.insert(ns.end(), more, more + sizeof more / sizeof *more); }
+        Sec s(("long" + sfx).c_str());
+        typedef const char* S;
+        std::string nlist;
+        for (int n : ns) {
+            std::string base; for (int i = 0; i < n; i++) base += "abAB"[i % 4];
+            std::vector<std::string> v; v.push_back(base); v.push_back(base.substr(0, n - 1)); v.push_back(base.substr(1)); v.push_back(base + "z");
+            for (int i = 0; i < n; i++) { std::string x = base; x[i] = 'z'; v.push_back(x); x = base; x[i] = (char)(x[i] ^ 0x20); v.push_back(x); }
+            std::vector<const char*> se, sa;
+            for (auto& x : v) { se.push_back(heap_str(x)); sa.push_back(heap_str(x)); }
+            std::vector<size_t> lens = {0, 1, (size_t)n - 1, (size_t)n, (size_t)n + 1, (size_t)-1};
+            std::string t = vf::fmt("<n=%d>", n); nlist += vf::fmt("%s%d", nlist.empty() ? "" : ",", n);
+            add2<S, S>(s, "STRCMP_EQUAL" + t, se, sa, F2(S, S, STRCMP_EQUAL(e, a)), str_equal);
+            add2<S, S>(s, "STRCMP_NOCASE_EQUAL" + t, se, sa, F2(S, S, STRCMP_NOCASE_EQUAL(e, a)), str_nocase_equal);
+            add2<S, S>(s, "STRCMP_CONTAINS" + t, se, sa, F2(S, S, STRCMP_CONTAINS(e, a)), str_contains);
+            add2<S, S>(s, "STRCMP_NOCASE_CONTAINS" + t, se, sa, F2(S, S, STRCMP_NOCASE_CONTAINS(e, a)), str_nocase_contains);
+            add2<S, S>(s, "CHECK_EQUAL_C_STRING" + t, se, sa, c03c_string, str_equal);
+            add3<S, S, size_t>(s, "STRNCMP_EQUAL" + t, se, sa, lens, F3(S, S, size_t, STRNCMP_EQUAL(e, a, z)), str_n_equal);
+            // blocks of n bytes: the base block and the base with one byte changed at each position
+            std::string bb; for (int i = 0; i < n; i++) bb += (char)(unsigned char)((i * 37 + 1) & 0xff);
+            std::vector<Buf> be, ba; be.push_back(heap_buf(bb)); ba.push_back(heap_buf(bb));
+            for (int i = 0; i < n; i++) { std::string x = bb; x[i] = (char)(x[i] ^ 0x80); be.push_back(heap_buf(x)); ba.push_back(heap_buf(x)); }
+            std::vector<size_t> sizes = {0, 1, (size_t)n - 1, (size_t)n};
+            add3<Buf, Buf, size_t>(s, "MEMCMP_EQUAL" + t, be, ba, sizes, F3(Buf, Buf, size_t, MEMCMP_EQUAL(e.p, a.p, z)), mem_equal, mem_skip);
+            add3<Buf, Buf, size_t>(s, "CHECK_EQUAL_C_MEMCMP" + t, be, ba, sizes, F3(Buf, Buf, size_t, c03c_memcmp(e.p, a.p, z)), mem_equal, mem_skip);
+        }
+        run_section(s, "for each length n in {" + nlist + "}: both operands over the base string (abAB repeated, n characters), the base without its last / without its first character, the base plus one character, and the base with the character at each position replaced / case-flipped (2n+4 strings, all pairs, two pools); STRNCMP lengths {0,1,n-1,n,n+1,SIZE_MAX}; blocks: the n-byte base block and the base with one byte changed at each position, all pairs x sizes {0,1,n-1,n}");
+    }
+
     // ------------------------------------------------------------ memory blocks
     {
         std::vector<std::string> w;
